@@ -306,8 +306,14 @@ def hFlat (I : Interp) (p : Evm.Params) : List HCell → Nat → Nat → Nat
   | c :: rest, a, slot =>
     if c.acct = a ∧ hLoc p c.kind (c.key.eval I) c.base = slot then c.val.eval I else hFlat I p rest a slot
 
-/-- the slots from 2^64 on of the modelled accounts hold what the chain of writes to hashed locations says -/
+/-- keys and values of the cells are well-formed 256-bit terms -/
+def HChainWF (chain : List HCell) : Prop :=
+  ∀ c ∈ chain, c.key.WF ∧ c.key.width = 256 ∧ c.val.WF ∧ c.val.width = 256
+
+/-- the chain of writes is well-formed, and
+    the slots from 2^64 on of the modelled accounts hold what the chain of writes to hashed locations says -/
 def HRel (I : Interp) (p : Evm.Params) (S : Nat → Prop) (w : Evm.World) (chain : List HCell) : Prop :=
+  HChainWF chain ∧
   ∀ a, S a → ∀ slot, 2 ^ 64 ≤ slot → Evm.lookupD w.storage (a, slot) = hFlat I p chain a slot
 
 /-- a run of the frame of the account `a` does not touch the slots from 2^64 on -/
@@ -315,18 +321,18 @@ theorem HRel.ofWRel {I : Interp} {p : Evm.Params} {S : Nat → Prop} {w w' : Evm
     (h : HRel I p S w chain) {a : Nat} {sto tr : List (Nat × T)} (h' : WRel I (zeroAcct w a) w' a sto tr) :
     HRel I p S w' chain := by
   obtain ⟨f1, f2⟩ := h'.frame
-  intro b hb slot hge
+  refine ⟨h.1, fun b hb slot hge => ?_⟩
   by_cases e : b = a
-  · subst e; rw [f2 slot hge]; exact h b hb slot hge
-  · rw [(f1 b slot e).1]; exact h b hb slot hge
+  · subst e; rw [f2 slot hge]; exact h.2 b hb slot hge
+  · rw [(f1 b slot e).1]; exact h.2 b hb slot hge
 
 theorem HRel.mono_world {I : Interp} {p : Evm.Params} {S : Nat → Prop} {w w' : Evm.World} {chain : List HCell}
     (h : HRel I p S w chain) (hs : w'.storage = w.storage) : HRel I p S w' chain :=
-  fun a ha slot hge => by rw [hs]; exact h a ha slot hge
+  ⟨h.1, fun a ha slot hge => by rw [hs]; exact h.2 a ha slot hge⟩
 
 theorem HRel.congr {I : Interp} {p : Evm.Params} {S : Nat → Prop} {w w' : Evm.World} {chain : List HCell}
     (h : HRel I p S w chain) (hs : ∀ a slot, Evm.lookupD w'.storage (a, slot) = Evm.lookupD w.storage (a, slot)) :
-    HRel I p S w' chain := fun a ha slot hge => (hs a slot).trans (h a ha slot hge)
+    HRel I p S w' chain := ⟨h.1, fun a ha slot hge => (hs a slot).trans (h.2 a ha slot hge)⟩
 
 /-! ### the relation -/
 
@@ -901,11 +907,12 @@ end
 /-- an end of the run covers the concrete result `r` (cf. `EndCovers`): its path is satisfied and it reports exactly
     that outcome, untagged, its maps — of all modelled accounts — describing exactly that world; or it is an error
     report; or it is tagged -/
-def EndCoversC (I : Interp) (S : Nat → Prop) (w0 : Evm.World) (r : Evm.World × Evm.Halt) (ce : CEnd) : Prop :=
+def EndCoversC (I : Interp) (p : Evm.Params) (S : Nat → Prop) (w0 : Evm.World) (r : Evm.World × Evm.Halt)
+    (ce : CEnd) : Prop :=
   Sat I ce.e.st.path ∧
     ((∃ h0, ce.e.out = .halt h0 ∧ haltWith h0 (ce.e.data.map (·.eval I)) = r.2 ∧ ce.e.tag = .normal ∧
         WRelM I S (wd w0 ce.created ce.nonce) r.1 (stoOf ce.stores) (evalLogs I ce.logs) (balSem I w0 ce.bal) ∧
-        (∀ b ∈ ce.e.data, b.WF ∧ b.width = 8)) ∨
+        (∀ b ∈ ce.e.data, b.WF ∧ b.width = 8) ∧ HRel I p S r.1 ce.hsto) ∨
      (∃ r', ce.e.out = .stuck r') ∨ ce.e.tag ≠ .normal)
 
 section
@@ -971,7 +978,7 @@ theorem finish_complete (hrel : RelC I p S w0 cs w f kcs) (hsat : Sat I cs.st.pa
     (hrun : RunStack p w f kcs r) (hbb : BBAll C w kcs) {lo : LocalOut} (hl : LocalComplete I p S w0 C cs w f r lo) :
     (∃ cs' ∈ (finish cs lo).next, Sat I cs'.st.path ∧ ∃ w' f' kcs', RelC I p S w0 cs' w' f' kcs' ∧
         RunStack p w' f' kcs' r ∧ BBAll C w' kcs') ∨
-    (∃ ce ∈ (finish cs lo).ends, EndCoversC I S w0 r ce) ∨
+    (∃ ce ∈ (finish cs lo).ends, EndCoversC I p S w0 r ce) ∨
     (finish cs lo).bounded ≠ [] := by
   rcases hl with ⟨cs', hm, hsat', hx⟩ | ⟨e, he, hk, hcase⟩ | hb
   · exact Or.inl ⟨cs', finish_next_of_local hm, hsat', hx⟩
@@ -984,7 +991,7 @@ theorem finish_complete (hrel : RelC I p S w0 cs w f kcs) (hsat : Sat I cs.st.pa
         subst hkcs
         have : r = r1 := halts_unique hrun hh
         subst this
-        exact Or.inr (Or.inl ⟨_, finish_ends_of_nil he hc, hsate, Or.inl ⟨h, ho, hres, ht, hW, hdwf⟩⟩)
+        exact Or.inr (Or.inl ⟨_, finish_ends_of_nil he hc, hsate, Or.inl ⟨h, ho, hres, ht, hW, hdwf, hHr⟩⟩)
       | cons k ks =>
         obtain ⟨kc, kcs', hkc, hrel', hiff⟩ := hcons k ks hc
         subst hkc
